@@ -3,7 +3,9 @@ package main
 import (
 	"encoding/json"
 	"fmt"
+	"github.com/ipld/go-ipld-prime"
 	"math/rand"
+	"strings"
 
 	"github.com/ipld/go-ipld-prime/datamodel"
 	"github.com/ipld/go-ipld-prime/fluent/qp"
@@ -31,8 +33,33 @@ func intsOf(s string) []int {
 	return out
 }
 
-// likeViaConstructor evaluates `like` through the Go constructor API.
-func likeViaConstructor(pat, str string) (res string, err error) {
+// valueOfKind: the datum a `like` statement is evaluated on: the string itself, or a value of another kind
+// carrying the same content.
+func valueOfKind(kind, str string) ipld.Node {
+	switch kind {
+	case "bytes":
+		return basicnode.NewBytes([]byte(str))
+	case "list":
+		return listOf(basicnode.NewString(str))
+	case "map":
+		return mapNode(map[string]ipld.Node{str: basicnode.NewString(str)})
+	case "int":
+		return basicnode.NewInt(int64(len(str)))
+	case "null":
+		return datamodel.Null
+	case "bool":
+		return basicnode.NewBool(true)
+	}
+	return literal.String(str)
+}
+
+func likeViaConstructor(pat, str string) (string, error) {
+	return likeViaConstructorK(pat, str, "string")
+}
+func likeViaIPLD(pat, str string) (string, error) { return likeViaIPLDK(pat, str, "string") }
+
+// likeViaConstructorK evaluates `like` through the Go constructor API.
+func likeViaConstructorK(pat, str, kind string) (res string, err error) {
 	defer func() {
 		if r := recover(); r != nil {
 			res, err = "panic", fmt.Errorf("panic: %v", r)
@@ -42,15 +69,15 @@ func likeViaConstructor(pat, str string) (res string, err error) {
 	if cerr != nil {
 		return "reject", nil
 	}
-	ok, _ := pol.Match(literal.String(str))
+	ok, _ := pol.Match(valueOfKind(kind, str))
 	if ok {
 		return "true", nil
 	}
 	return "false", nil
 }
 
-// likeViaIPLD evaluates `like` through the wire form [["like", ".", pat]].
-func likeViaIPLD(pat, str string) (res string, err error) {
+// likeViaIPLDK evaluates `like` through the wire form [["like", ".", pat]].
+func likeViaIPLDK(pat, str, kind string) (res string, err error) {
 	defer func() {
 		if r := recover(); r != nil {
 			res, err = "panic", fmt.Errorf("panic: %v", r)
@@ -70,7 +97,7 @@ func likeViaIPLD(pat, str string) (res string, err error) {
 	if perr != nil {
 		return "reject", nil
 	}
-	ok, _ := pol.Match(literal.String(str))
+	ok, _ := pol.Match(valueOfKind(kind, str))
 	if ok {
 		return "true", nil
 	}
@@ -117,6 +144,14 @@ func init() {
 			if a2 != c.Expect {
 				rep.violation(c, c.Expect, a2, fmt.Sprintf("policy.FromIPLD like %q on %q", pat, str))
 			}
+			// the same content as a value of another kind is not a string in the language
+			if c.Expect == "true" {
+				for _, kind := range []string{"bytes", "list", "map"} {
+					if a3, err := likeViaConstructorK(pat, str, kind); err != nil || a3 != "false" {
+						rep.violation(map[string]any{"pat": c.Pat, "str": c.Str, "kind": kind}, "false", a3, fmt.Sprintf("policy.Like(%q) on the %s value with content %q", pat, kind, str))
+					}
+				}
+			}
 		}
 		return nil
 	}
@@ -134,38 +169,74 @@ func init() {
 			}
 			return s
 		}
+		// overlap-heavy pairs over a two-letter alphabet: the literal after a star re-occurs inside the text it has to
+		// skip, so that a matcher must reconsider characters it already consumed in a failed attempt
+		small := []string{"a", "a", "b", "*"}
+		genSmall := func(max int) string {
+			k := 1 + rng.Intn(max)
+			s := ""
+			for i := 0; i < k; i++ {
+				s += small[rng.Intn(len(small))]
+			}
+			return s
+		}
 		for i := 0; i < n; i++ {
 			pat := gen(10)
 			var str string
-			switch rng.Intn(3) {
-			case 0:
-				str = gen(12)
-			default:
-				// derive the string from the pattern so that matches are frequent
+			kind := "string"
+			if rng.Intn(8) == 0 {
+				kind = []string{"bytes", "list", "map", "int", "null", "bool"}[rng.Intn(6)]
+			}
+			if rng.Intn(3) == 0 {
+				pat = genSmall(8)
+				// expand each star with a piece made of prefixes of the literal that follows it
 				for k := 0; k < len(pat); k++ {
-					switch {
-					case pat[k] == '*' && rng.Intn(2) == 0:
-						str += gen(3)
-					case pat[k] == '\\' && k+1 < len(pat) && rng.Intn(4) != 0:
-						k++
+					if pat[k] != '*' {
 						str += pat[k : k+1]
-					default:
-						str += pat[k : k+1]
+						continue
+					}
+					rest := strings.SplitN(pat[k+1:], "*", 2)[0]
+					for r := rng.Intn(4); r > 0 && len(rest) > 0; r-- {
+						str += rest[:1+rng.Intn(len(rest))]
+					}
+					if rng.Intn(3) == 0 {
+						str += small[rng.Intn(3)]
 					}
 				}
-				if rng.Intn(5) == 0 {
-					str += gen(1)
+				if rng.Intn(6) == 0 {
+					str += small[rng.Intn(3)]
+				}
+			} else {
+				switch rng.Intn(3) {
+				case 0:
+					str = gen(12)
+				default:
+					// derive the string from the pattern so that matches are frequent
+					for k := 0; k < len(pat); k++ {
+						switch {
+						case pat[k] == '*' && rng.Intn(2) == 0:
+							str += gen(3)
+						case pat[k] == '\\' && k+1 < len(pat) && rng.Intn(4) != 0:
+							k++
+							str += pat[k : k+1]
+						default:
+							str += pat[k : k+1]
+						}
+					}
+					if rng.Intn(5) == 0 {
+						str += gen(1)
+					}
 				}
 			}
-			res, err := likeViaConstructor(pat, str)
+			res, err := likeViaConstructorK(pat, str, kind)
 			if err != nil {
 				res = "panic"
 			}
-			res2, err := likeViaIPLD(pat, str)
+			res2, err := likeViaIPLDK(pat, str, kind)
 			if err != nil {
 				res2 = "panic"
 			}
-			emit(map[string]any{"ev": "Like", "pat": intsOf(pat), "str": intsOf(str), "res": res, "res2": res2})
+			emit(map[string]any{"ev": "Like", "pat": intsOf(pat), "str": intsOf(str), "kind": kind, "res": res, "res2": res2})
 		}
 		return nil
 	}
